@@ -534,7 +534,8 @@ class Normalizer:
                         if ro.get("k") == "const" and "fn" in ro:
                             clos[i] = ("fnitem", ro)
                         else:
-                            okc = False
+                            # reached through a captured variable / parameter of a spliced helper
+                            clos[i] = ("fnitem", {"k": "const", "ty": "fn", "fn": {"def": e[1], "full": e[1], "name": e[1].split("::")[-1], "targs": []}, "v": e[1]})
                     else:
                         okc = False
                 if okc:
